@@ -684,9 +684,12 @@ def _padded_field(name, t, bf, N, sizes, expected_rows, pad, k):
     return None
 
 
-def _identify(N, ids, o_ids, used, matches, k):
+def _identify(N, ids, o_ids, used, matches, k, order=None):
     """Map each row to an utterance index not delivered before in this epoch. ids: all utterance ids in index order;
-    o_ids: the ids delivered with the batch or None; matches(n, i): row n has the contents of utterance i."""
+    o_ids: the ids delivered with the batch or None; matches(n, i): row n has the contents of utterance i.
+    Without ids, utterances of identical contents (two empty transcripts) cannot be told apart by any observer: among the
+    matching candidates the one earliest in the sampler's order is taken (identical contents have identical length, hence
+    one bucket, and a bucket is emptied in sampler order) - a swap among them is not an observable difference."""
     rows = []
     if o_ids is not None and (not isinstance(o_ids, tuple) or len(o_ids) != N):
         return None, "batch %d: utterance ids %r do not number the %d rows" % (k, o_ids, N)
@@ -698,7 +701,7 @@ def _identify(N, ids, o_ids, used, matches, k):
             if cand[0] in used:
                 return None, "batch %d row %d: utterance %s is delivered twice in one epoch" % (k, n, o_ids[n])
         else:
-            cand = [i for i in range(len(ids)) if i not in used]
+            cand = [i for i in (order if order is not None else range(len(ids))) if i not in used]
         found = next((i for i in cand if matches(n, i)), None)
         if found is None:
             if o_ids is not None:
@@ -801,7 +804,7 @@ def check_loader_spect(case):
                             return False
                         return True
 
-                    rows, msg = _identify(N, ids, o_ids, used, matches, k)
+                    rows, msg = _identify(N, ids, o_ids, used, matches, k, order=list(order))
                     if msg:
                         return msg
                     msg = _padded_field("feats", o_feats, bf, N, fs, [want[i][0] for i in rows], 0, k)
@@ -871,7 +874,7 @@ def check_loader_lang(case):
                         r = want[i]
                         return rs[n] == r.size(0) and list(o_refs.shape[2:]) == list(r.shape[1:]) and torch.equal(_row(o_refs, n, bf)[:rs[n]], r)
 
-                    rows, msg = _identify(N, ids, o_ids, used, matches, k)
+                    rows, msg = _identify(N, ids, o_ids, used, matches, k, order=list(order))
                     msg = msg or _padded_field("refs", o_refs, bf, N, rs, [want[i] for i in rows], config.INDEX_PAD_VALUE, k)
                     if msg:
                         return msg
